@@ -55,6 +55,7 @@ fn alphabet(groups: usize) -> Vec<REvent> {
         }
     }
     a.push(REvent::AddGroup);
+    a.push(REvent::AddGroupWith { entity: "ns.Q".into(), own: true, all: false, key: 1 });
     a
 }
 
@@ -184,6 +185,9 @@ pub fn diff_class(expected: &[String], got: &[String]) -> Option<String> {
             for (a, b) in et.iter().zip(gt.iter()) {
                 if a != b {
                     // token like adm1 / mem0 / ua0=1 / ns.P:10
+                    if a.starts_with("groups=") {
+                        return Some("group-count".into());
+                    }
                     let name: String = a.chars().take_while(|c| !c.is_ascii_digit() || *c == '.').collect();
                     let name = if a.starts_with("ns.") { a.split(':').next().unwrap().to_string() } else { name };
                     let dir = if a < b { "more-permissive" } else { "less-permissive" };
